@@ -15,6 +15,9 @@ import time
 import traceback
 
 ROOT = os.path.dirname(os.path.dirname(os.path.abspath(__file__)))
+# evidence/ and replays/ describe /repo; a run against another tree (VERIF_REPO, used by tools/mutants.py)
+# writes them under .work/scratch-out instead
+OUT = ROOT if os.path.realpath(os.environ.get("VERIF_REPO", "/repo")) == "/repo" else os.path.join(ROOT, ".work", "scratch-out")
 sys.path.insert(0, ROOT)
 sys.path.insert(0, os.environ.get("VERIF_REPO", "/repo"))
 
@@ -39,10 +42,10 @@ def clause_prop(clause):
 
 
 def write_replay(prop, fail, stim, trace):
-    os.makedirs(os.path.join(ROOT, "replays"), exist_ok=True)
+    os.makedirs(os.path.join(OUT, "replays"), exist_ok=True)
     key = hashlib.sha1(json.dumps([fail["clause"], stim["init"], stim["steps"], stim["pal"]],
                                   sort_keys=True).encode()).hexdigest()[:12]
-    path = os.path.join(ROOT, "replays", "%s-%s.json" % (prop, key))
+    path = os.path.join(OUT, "replays", "%s-%s.json" % (prop, key))
     ev = trace["events"][fail["l"] - 1] if trace and fail["l"] - 1 < len(trace["events"]) else None
     with open(path, "w") as f:
         json.dump({"property": prop, "clause": fail["clause"], "call": fail["call"], "event": fail["l"],
@@ -80,7 +83,7 @@ def run_property(prop, tier, seed):
     spec = F.PROPERTIES[prop]
     wd = P.workdir(prop)
     import glob
-    for old in glob.glob(os.path.join(ROOT, "replays", prop + "-*.json")):
+    for old in glob.glob(os.path.join(OUT, "replays", prop + "-*.json")):
         os.remove(old)              # replay files of earlier runs of this check
     known = load_known()
     evidence = {"property_id": prop, "tier": tier, "seed": seed, "level": spec["level"],
@@ -191,8 +194,8 @@ def run_property(prop, tier, seed):
         })
         evidence["violations"] = len(violations)
         evidence["wall_s"] = round(time.time() - t0, 2)
-        os.makedirs(os.path.join(ROOT, "evidence"), exist_ok=True)
-        with open(os.path.join(ROOT, "evidence", prop + ".json"), "w") as f:
+        os.makedirs(os.path.join(OUT, "evidence"), exist_ok=True)
+        with open(os.path.join(OUT, "evidence", prop + ".json"), "w") as f:
             json.dump(evidence, f, indent=1, sort_keys=True)
         print("%s %s: %d traces, %d events, %d clause evaluations, %d violations, %d known, %.1fs%s"
               % (prop, tier, traces_total, events_total, clause_evals, len(violations), sum(knowns.values()),
